@@ -48,6 +48,7 @@ def runOps : Tx → List String → List String → List String
       | some pl => let (tx', o) := tx.sendPackage pl; runOps tx' ts (showOut o :: acc)
       | none => ("bad-op" :: acc).reverse
     | some "f" => let (tx', o) := tx.sendRemaining; runOps tx' ts (showOut o :: acc)
+    | some "rs" => runOps tx.reset ts ("ok" :: acc)     -- `Channel.Reset`: the queued message is abandoned
     | some "ps" =>
       match f with
       | [_, n] => match n.toNat? with
